@@ -1,6 +1,7 @@
 import Vita.C11.Model
 import Vita.C11.Big
 import Vita.C11.Cache
+import Vita.C11.Lambda
 import Vita.C11.FloatImpl
 /-!
   Line protocol of the C11 / C12 drivers (executable side of the model).
@@ -145,6 +146,50 @@ def encCacheGo (sl : Nat) : List (Slot Nat) → Nat → List Int
 def encCache (c : Cache Nat) : List Int :=
   [(c.bits : Int), (c.sl : Int), ((c.table.filter (Slot.live c.sl)).length : Int)] ++ encCacheGo c.sl c.table 0
 
+
+/-! trained models (see harness/c11_lambda.h) -/
+def dName : D Str := do
+  let cs ← dList dNat
+  pure (cs.map Char.ofNat)
+def dDynPart : D DynPart := do
+  let m ← decMat; let sc ← dList dNat; let ds ← dNat
+  pure ⟨m, sc, ds⟩
+def dLambda : D (Lambda Nat) := do
+  let kind ← dNat
+  match kind with
+  | 0 => do let i ← dIMep; pure (.reg i)
+  | 1 => do let i ← dIMep; let d ← dDynPart; let n ← dList dName; pure (.dyn i d n)
+  | 2 => do let i ← dIMep; let d ← dList decDist; let n ← dList dName; pure (.gauss i d n)
+  | 3 => do let i ← dIMep; let n ← dList dName; pure (.binary i n)
+  | 4 => do let ms ← dList dIMep; pure (.teamReg ms)
+  | 5 => do
+    let c ← dNat
+    let ms ← dList (do let i ← dIMep; let d ← dDynPart; pure (i, d) : D (IMep Nat × DynPart))
+    let n ← dList dName
+    pure (.teamDyn c ms n)
+  | 6 => do
+    let c ← dNat
+    let ms ← dList (do let i ← dIMep; let d ← dList decDist; pure (i, d) : D (IMep Nat × List (Dist Nat)))
+    let n ← dList dName
+    pure (.teamGauss c ms n)
+  | 7 => do let c ← dNat; let ms ← dList dIMep; let n ← dList dName; pure (.teamBinary c ms n)
+  | _ => fun _ => none
+
+def encNames (ns : List Str) : List Int :=
+  (ns.length : Int) :: ns.flatMap (fun n => (n.length : Int) :: n.map (fun c => (c.toNat : Int)))
+def encDynPart (d : DynPart) : List Int :=
+  encMat d.slotMatrix ++ [(d.slotClass.length : Int)] ++ nats d.slotClass ++ [(d.datasetSize : Int)]
+def encDists (ds : List (Dist Nat)) : List Int := (ds.length : Int) :: ds.flatMap encDist
+def encLambda : Lambda Nat → List Int
+  | .reg i => [0] ++ encIMep i
+  | .dyn i d n => [1] ++ encIMep i ++ encDynPart d ++ encNames n
+  | .gauss i d n => [2] ++ encIMep i ++ encDists d ++ encNames n
+  | .binary i n => [3] ++ encIMep i ++ encNames n
+  | .teamReg ms => [4] ++ encTeam ms
+  | .teamDyn c ms n => [5, (c : Int), (ms.length : Int)] ++ ms.flatMap (fun m => encIMep m.1 ++ encDynPart m.2) ++ encNames n
+  | .teamGauss c ms n => [6, (c : Int), (ms.length : Int)] ++ ms.flatMap (fun m => encIMep m.1 ++ encDists m.2) ++ encNames n
+  | .teamBinary c ms n => [7, (c : Int), (ms.length : Int)] ++ ms.flatMap encIMep ++ encNames n
+
 /-- symbol table context: `nsym (opcode hasPar arity)*` -/
 def decTab (ctx : List Int) : SymTab :=
   match dEnd (dList (do let op ← dNat; let hp ← dNat; let ar ← dNat; pure (op, (⟨hp != 0, ar⟩ : SymInfo)) : D (Nat × SymInfo)) ctx) with
@@ -166,6 +211,7 @@ def doSave (ty : String) (ints : List Int) : Option Str :=
   | "pop" => (dEnd (dList dLayer ints)).map (Pop.save fio)
   | "summ" => (dEnd (dSumm ints)).map (Summary.save fio)
   | "cache" => (dEnd (dCache ints)).map (Cache.save fio)
+  | "lam" => (dEnd (dLambda ints)).map (Lambda.save fio)
   | _ => none
 
 def fin {α} (enc : α → List Int) (r : Option (α × Str)) : String :=
@@ -180,6 +226,7 @@ def doLoad (ty : String) (s : Str) (ctx : List Int := []) : Option String :=
   | "team" => some (fin encTeam (Team.load fio (decTab ctx) s))
   | "pop" => some (fin encPop (Pop.load fio (decTab ctx) s))
   | "summ" => some (fin encSumm (Summary.load fio (decTab ctx) s))
+  | "lam" => some (fin encLambda (Lambda.load fio (decTab ctx) s))
   | "cache" => match ctx with         -- context: the `bits` of the fresh target cache
     | [b] => if b < 0 ∨ b > 20 then none else some (fin encCache (Cache.loadInto fio (Cache.fresh b.toNat) s))
     | _ => none
